@@ -717,6 +717,11 @@ def _list(interp, args, kwargs, node, frame):
         return list(v)
     if hasattr(v, "sym_list"):
         return v.sym_list(interp, node)
+    if isinstance(v, SSeq):
+        c = SSeq(v.base_len, label=f"copy({v.label})")
+        c.appended = list(v.appended)
+        c.copy_of = v
+        return c
     raise Unsupported(f"list() of {type(v).__name__}", node)
 
 
@@ -847,6 +852,9 @@ def call_lib(interp, dotted, args, kwargs, node, frame):
     if name.startswith("np."):
         name = "numpy." + name[3:]
     f = LIB.get(name)
+    if f is None and interp.config.get("permissive"):
+        interp.run.assumptions.add(f"[permissive] unmodelled library call {dotted}(...) treated as a pure function with an unknown result")
+        return SOpaque(f"{dotted}(...)")
     if f is None:
         hook = interp.config.get("lib_hook")
         if hook is not None:
@@ -1126,6 +1134,8 @@ def _type_key(obj):
 
 def call_method(interp, recv, name, args, kwargs, node, frame):
     f = METHODS.get((_type_key(recv), name))
+    if f is None and interp.config.get("permissive"):
+        return SOpaque(f"{name}(...)")
     if f is None:
         raise Unsupported(f"method {name} on {type(recv).__name__}", node)
     return f(interp, recv, args, kwargs, node, frame)
@@ -1296,4 +1306,36 @@ def _sstr_lower(interp, recv, args, kwargs, node, frame):
 
 
 def seq_loop(interp, st, it, frame):
-    raise Unsupported("loop over a symbolic-length sequence needs an invariant", st)
+    """`for x in seq: out.append(f(x))` over a symbolic-length list (the list form of a map loop): the body is
+    executed once on an arbitrary element; the only effect allowed is ONE append to a local list that was
+    empty before the loop, which becomes a symbolic list of the same length.  A body without effects on lists
+    (e.g. `w.warn()` on every element) is executed once for its exceptions only."""
+    from .interp import _SeqIter
+    seq = it.seq if isinstance(it, _SeqIter) else it
+    if seq.appended:
+        raise Unsupported("loop over a symbolic list that has concrete appended items", st)
+    lists_before = {k: (v, len(v)) for k, v in frame.locals.items() if type(v) is list}
+    seqs_before = {k: (v, len(v.appended)) for k, v in frame.locals.items() if isinstance(v, SSeq)}
+    elem = SOpaque(f"element of {seq.label}")
+    elem.attrs["__elem_of__"] = seq
+    interp.assign(st.target, elem, frame)
+    if not interp.run.branch(seq.length() > 0):
+        interp.exec_block(st.orelse, frame)
+        return
+    from .engine import _Break, _Continue
+    try:
+        interp.exec_block(st.body, frame)
+    except (_Break, _Continue):
+        raise Unsupported("break/continue in a loop over a symbolic list", st)
+    grown = [(k, v, n0) for k, (v, n0) in lists_before.items() if len(v) != n0]
+    for k, (v, n0) in seqs_before.items():
+        if len(v.appended) != n0:
+            raise Unsupported("append to a symbolic list inside a loop over a symbolic list", st)
+    if len(grown) > 1 or any(n0 != 0 or len(v) != 1 for _, v, n0 in grown):
+        raise Unsupported("loop over a symbolic list with effects other than one append to an empty local list", st)
+    for k, v, n0 in grown:
+        out = SSeq(seq.length(), label=f"map({seq.label})")
+        out.template = v[0]
+        frame.locals[k] = out
+    if st.orelse:
+        interp.exec_block(st.orelse, frame)
